@@ -22,8 +22,10 @@ T ==
                  <<"uncomputed", "set_error", "error">>,
                  <<"uncomputed", "set_self", "selfvalue">>,                     \* a future whose value is itself
                  <<"uncomputed", "set_cycle", "cyclevalue">>,                   \* ... whose value contains itself
+                 <<"uncomputed", "set_mutual", "mutualvalue">>,                 \* ... whose value is a future whose value is this one
                  <<"value", "reset", "uncomputed">>, <<"error", "reset", "uncomputed">>,
-                 <<"selfvalue", "reset", "uncomputed">>, <<"cyclevalue", "reset", "uncomputed">>}) \cup
+                 <<"selfvalue", "reset", "uncomputed">>, <<"cyclevalue", "reset", "uncomputed">>,
+                 <<"mutualvalue", "reset", "uncomputed">>}) \cup
   Tr("const",   {<<"none", "create", "value">>}) \cup                           \* ConstFuture
   Tr("errfut",  {<<"none", "create", "error">>}) \cup                           \* ErrorFuture
   Tr("task",    {<<"none", "create", "new">>,                                   \* AsyncTask
